@@ -165,6 +165,12 @@ def render(spec):
                         ' if "tip position" in idnt else float("nan"))')
             return f"float({str(a[k])!r})"
         body = ", ".join(f"{k!r}: {_val(k)}" for k in akeys)
+        if a.get("_extra"):
+            # intermediate results the recipe returns without declaring
+            # them (they are not ancillaries of the model)
+            body += ", " + ", ".join(
+                f"{k!r}: float({v!r})" for k, v in a["_extra"].items()
+                if k not in akeys)
         anc = ("def compute_ancillaries(idnt):\n"
                f"    return {{{body}}}\n\n")
         attrs["parameter_anc_keys"] = repr(akeys)
@@ -223,6 +229,10 @@ def labels_for(spec):
         units[1] = "um"
         names[4] = "Offset Force"
     return names, units
+
+
+def rng_suffix(op):
+    return [".txt", ".py.bak", ""][op.get("stmt", 0) % 3]
 
 
 def eff_anc(spec):
@@ -320,6 +330,10 @@ class RegistryEngine:
                     # an ancillary that matches a parameter which is fixed
                     # by default
                     spec["anc"]["R"] = rng.choice([4e-6, float("nan")])
+                if rng.random() < 0.3:
+                    spec["anc"]["_extra"] = rng.choice(
+                        [{"R": 7e-6, "helper": 1.0}, {"nu": 0.3},
+                         {"baseline": 1e-10, "R": 2e-6}])
                 if rng.random() < 0.4:
                     # ... and one for the contact point, which the library
                     # also guesses from the data
@@ -363,7 +377,7 @@ class RegistryEngine:
             elif r < 0.9:
                 kind = rng.choice(["valid", "valid", "valid", "missing",
                                    "syntax", "raises", "importerror",
-                                   "raises_pathedit",
+                                   "nosuffix", "raises_pathedit",
                                    "importerror_pathedit"])
                 mutant = rng.choice(muts_anc) if (
                     kind == "valid" and rng.random() < 0.25) else None
@@ -807,6 +821,10 @@ class RegistryEngine:
         elif kind == "importerror":
             path = d / (op.get("stem", "modela") + "_imp.py")
             path.write_text("import a_module_that_does_not_exist_sim\n")
+        elif kind == "nosuffix":
+            # valid code in a file the import machinery has no loader for
+            path = d / (op.get("stem", "modela") + rng_suffix(op))
+            path.write_text(render(spec))
         elif kind in ("raises_pathedit", "importerror_pathedit"):
             # a model file that puts its helper directory on the import
             # path itself and then fails
